@@ -2140,3 +2140,162 @@ fn c07_inner(cx: &mut Cx, net: &mut RealNet, n: usize) -> Option<()> {
     cx.sample(json!({"lane": "real network", "nodes": n, "keys": tracks.len(), "rounds": labels}));
     Some(())
 }
+
+// ------------------------------------------------------------------------------------------------------------------
+/// C01 on a real event loop: one node whose driver runs its own `SwarmDriver::run` loop on a multi-thread runtime, so the
+/// store's spawned disk tasks really run in parallel (the controlled C01 cases release them one at a time). Bursts of
+/// puts for *different* keys (the statement's independence clause), every burst settled before the next; afterwards each
+/// key must read back exactly, also once it has left the read cache, and again after the node was stopped and restarted.
+pub fn c01_case(cx: &mut Cx) {
+    let Some(mut net) = start(cx, "c01r", &[false]) else { return };
+    if c01_inner(cx, &mut net).is_none() {
+        cx.count("realnet:cases-abandoned");
+    }
+    net.shutdown();
+}
+
+fn c01_inner(cx: &mut Cx, net: &mut RealNet) -> Option<()> {
+    macro_rules! harness {
+        ($e:expr) => {
+            match $e {
+                Ok(v) => v,
+                Err(e) => {
+                    cx.count("realnet:abandoned:harness-error");
+                    cx.log(e);
+                    return None;
+                }
+            }
+        };
+    }
+    // key -> (bytes of the latest accepted put, expected listed type when it is version-bearing)
+    let mut model: BTreeMap<Vec<u8>, Vec<u8>> = BTreeMap::new();
+    let mut pads: Vec<(bls::SecretKey, u64)> = vec![];
+    let bursts = cx.rng.gen_range(2..=4);
+    let mut total_puts = 0u64;
+    let mut read_ok: BTreeSet<Vec<u8>> = BTreeSet::new();
+    for burst in 0..bursts {
+        let count = cx.rng.gen_range(30..=90);
+        let mut batch: Vec<Record> = vec![];
+        let mut in_batch: BTreeSet<Vec<u8>> = BTreeSet::new();
+        for _ in 0..count {
+            let rec = match cx.rng.gen_range(0..10) {
+                // overwrite of an earlier scratchpad with a later version (never two puts of one key in one burst)
+                0..=2 if !pads.is_empty() => {
+                    let i = cx.rng.gen_range(0..pads.len());
+                    pads[i].1 += 1;
+                    let n = cx.rng.gen_range(0..3000);
+                    gen::pad_record(&gen::pad(&pads[i].0, pads[i].1, &gen::bytes(&mut cx.rng, n), 0))
+                }
+                3..=5 => {
+                    let owner = gen::bls_sk(&mut cx.rng);
+                    let n = cx.rng.gen_range(0..3000);
+                    let r = gen::pad_record(&gen::pad(&owner, 1, &gen::bytes(&mut cx.rng, n), 0));
+                    pads.push((owner, 1));
+                    r
+                }
+                _ => {
+                    let size = *[1usize, 200, 4_000, 60_000, 300_000, 900_000].choose(&mut cx.rng).expect("nonempty");
+                    gen::chunk_record(&gen::chunk(&mut cx.rng, size))
+                }
+            };
+            if in_batch.insert(rec.key.to_vec()) {
+                batch.push(rec);
+            }
+        }
+        {
+            let node = harness!(net.net_of(0));
+            let _g = net.ctl.enter();
+            for rec in &batch {
+                node.put_local_record(rec.clone());
+                model.insert(rec.key.to_vec(), rec.value.clone());
+            }
+        }
+        total_puts += batch.len() as u64;
+        cx.count_n("realnet:c01:puts-in-parallel-bursts", batch.len() as u64);
+        // settled = the listing did not change over three samples (each a round trip through the node's event loop);
+        // keys still missing then are given a further 20 s during which nothing may be pending anywhere
+        let wanted = |listing: &BTreeMap<Vec<u8>, ant_protocol::storage::RecordType>| -> Vec<Vec<u8>> {
+            model
+                .iter()
+                .filter(|(k, v)| match listing.get(*k) {
+                    None => true,
+                    Some(ant_protocol::storage::RecordType::NonChunk(h)) => *h != XorName::from_content(v),
+                    Some(_) => false,
+                })
+                .map(|(k, _)| k.clone())
+                .collect()
+        };
+        let t0 = Instant::now();
+        let mut prev: Option<BTreeMap<Vec<u8>, ant_protocol::storage::RecordType>> = None;
+        let mut stable = 0;
+        let mut stable_since: Option<Instant> = None;
+        let missing = loop {
+            let listing = harness!(net.addresses(0));
+            let miss = wanted(&listing);
+            if miss.is_empty() {
+                break miss;
+            }
+            if prev.as_ref() == Some(&listing) {
+                stable += 1;
+                if stable >= 3 && stable_since.is_none() {
+                    stable_since = Some(Instant::now());
+                }
+            } else {
+                stable = 0;
+                stable_since = None;
+            }
+            if let Some(s) = stable_since {
+                if s.elapsed() > Duration::from_secs(20) {
+                    break miss;
+                }
+            }
+            if t0.elapsed() > Duration::from_secs(180) {
+                cx.count("realnet:abandoned:settle-watchdog");
+                return None;
+            }
+            prev = Some(listing);
+            std::thread::sleep(Duration::from_millis(100));
+        };
+        let w = json!({"burst": burst, "puts_in_burst": batch.len(), "keys_so_far": model.len()});
+        for k in missing.iter().take(3) {
+            cx.violation("realnet:accepted-write-not-listed-correctly", format!("a record put in a burst of {} parallel writes is still not listed (with its version) 20 s after the store went quiet; key {}", batch.len(), hex(&k[..k.len().min(8)])), w.clone());
+        }
+        // every key ever put reads back as its latest bytes (most of them from the disk: the cache holds the last few)
+        for (k, v) in &model {
+            cx.eval();
+            read_ok.remove(k);
+            match harness!(net.local(0, &RecordKey::from(k.clone()))) {
+                Some(r) if r.value == *v => {
+                    read_ok.insert(k.clone());
+                }
+                Some(r) => {
+                    let whose = model.iter().find(|(_, ov)| **ov == r.value).map(|(ok, _)| hex(&ok[..ok.len().min(8)]));
+                    cx.violation("realnet:wrong-bytes-after-settle", format!("key {} serves {} bytes that are not its latest record{}", hex(&k[..k.len().min(8)]), r.value.len(), whose.map(|o| format!(" (they are the record of key {o})")).unwrap_or_default()), w.clone());
+                }
+                None if missing.contains(k) => {}
+                None => cx.violation("realnet:accepted-write-unreadable-after-settle", format!("key {} is listed but cannot be read back after a burst of {} parallel writes", hex(&k[..k.len().min(8)]), batch.len()), w.clone()),
+            }
+        }
+    }
+    // ---- stop at quiescence, restart over the directory, read everything again
+    if cx.rng.gen_bool(0.6) {
+        net.crash(0);
+        if let Err(e) = net.restart(0, FORM_WATCHDOG) {
+            cx.count("realnet:abandoned:restart");
+            cx.log(e);
+            return None;
+        }
+        for (k, v) in model.iter().filter(|(k, _)| read_ok.contains(*k)) {
+            cx.eval();
+            match harness!(net.local(0, &RecordKey::from(k.clone()))) {
+                Some(r) if r.value == *v => {}
+                Some(r) => cx.violation("realnet:wrong-bytes-after-restart", format!("key {} serves {} other bytes after the restart", hex(&k[..k.len().min(8)]), r.value.len()), json!({"keys": model.len()})),
+                None => cx.violation("realnet:settled-write-lost-after-restart", format!("key {} was readable before the node was stopped at quiescence and is gone after the restart", hex(&k[..k.len().min(8)])), json!({"keys": model.len()})),
+            }
+        }
+        cx.count("realnet:c01:restarted-and-read-again");
+    }
+    cx.nontrivial(&("c01-realnet", cx.index, total_puts));
+    cx.sample(json!({"lane": "real event loop, parallel disk tasks", "bursts": bursts, "puts": total_puts, "keys": model.len()}));
+    Some(())
+}
